@@ -374,13 +374,18 @@ class Isotropic(_Elastic):
         self.C = C
         self.S = S
 
-    def get_lambda(self):
+    def get_lambda(self, dim: Optional[int] = None):
+        """Lame's first parameter of the law written in dimension `dim` (by default self.dim).\n
+        In 2D with plane stress it is the plane-stress modified one; `get_lambda(3)` is always the 3D one."""
+        if dim is None:
+            dim = self.dim
+
         E = self.E
         v = self.v
 
         lmbda = E * v / ((1 + v) * (1 - 2 * v))
 
-        if self.dim == 2 and self.planeStress:
+        if dim == 2 and self.planeStress:
             lmbda = E * v / (1 - v**2)
 
         return lmbda
@@ -432,7 +437,7 @@ class Isotropic(_Elastic):
         Check_Heterogeneous_Parameters(E, v)
 
         mu = self.get_mu()
-        lmbda = self.get_lambda()
+        lmbda = self.get_lambda(dim)
 
         dtype = object if True in [isinstance(p, np.ndarray) for p in [E, v]] else float
 
@@ -484,8 +489,9 @@ class Isotropic(_Elastic):
         return c, s
 
     def Walpole_Decomposition(self) -> tuple[_types.FloatArray, _types.FloatArray]:
-        # Ei are (6,6) tensors: c1 is the 3D bulk modulus (get_bulk() depends on self.dim)
-        c1 = self.get_lambda() + 2 * self.get_mu() / 3
+        # Ei are (6,6) tensors: c1 is the 3D bulk modulus
+        # (get_bulk() and get_lambda() depend on self.dim and self.planeStress)
+        c1 = self.get_lambda(3) + 2 * self.get_mu() / 3
         c2 = self.get_mu()
 
         Ivect = np.array([1, 1, 1, 0, 0, 0])
